@@ -448,7 +448,7 @@ func (e *Exec) frameWriteRefIf(f *Frame, st *State, reach Term, r Term, what str
 	if e.rootCtr == nil || e.discovery > 0 {
 		return
 	}
-	if w := e.rootCtr.Writes; w != nil {
+	if w := e.rootCtr.Writes; w != nil && !w.Assumed {
 		e.oblige("frame", "writes", w.Props, reach, e.writeAllowed(r), "write outside the declared footprint (writes "+w.Text+"): "+what, "writes "+w.Text)
 	}
 	if len(e.rootCtr.FrameProps) == 0 {
